@@ -335,12 +335,17 @@ CLAIMED = {
              "term, += is the matrix sum, scalar multiple the matrix multiple, op*op the matrix product, for any "
              "number of terms on registers of any size; after add_term/+=/* no stored coefficient is zero. The hand "
              "models are tied to the code by vm_compute correspondence on Gaussian-integer coefficients and AST "
-             "fingerprints; a dense numpy sweep covers dagger, sparse export, bsv, Trotter-Suzuki, "
+             "fingerprints; a dense numpy sweep covers bsv / transition amplitudes, Trotter-Suzuki, "
              "label interning and string round trip. Differences, quotients by a scalar and commutators are covered by operator_difference_is_matrix_difference, "
-             "operator_quotient_is_matrix_quotient, operator_commutator_is_matrix_commutator.",
-        design_ref="DESIGN.md section 4 (C05)",
-        note="Trusted: Coq kernel+vm_compute; Reals axioms + funext; translate/tables.py; correspondence harness. "
-             "Partial: operations listed after 'sweep covers' have no theorem; binary64 rounding not modelled.",
+             "operator_quotient_is_matrix_quotient, operator_commutator_is_matrix_commutator; Hermitian conjugates by "
+             "hermitian_conjugate_is_the_adjoint (<O^dagger f, g> = <f, O g> for all states over any register containing the "
+             "labels' qubits); the matrix export by matrix_export_is_the_denotation (entry (i, j) of get_sparse_matrix's "
+             "Kronecker construction is the matrix element <i|O|j>, every register size, all indices). Two defects found by "
+             "this check were repaired (fix: a812a32, 77bd0ed).",
+        design_ref="DESIGN.md section 4 (C05), 9.2",
+        note="Trusted: Coq kernel+vm_compute; Reals axioms + funext; translate/tables.py; correspondence harnesses; scipy's kron "
+             "index rule as modelled. Partial: bsv / transition amplitudes, Trotter-Suzuki, label interning and parsing have no "
+             "theorem (sweep / correspondence); binary64 rounding not modelled.",
         technique="Coq proof (induction over labels and term lists on an n-qubit operator semantics, table obligations "
                   "by vm_compute) + vm_compute correspondence + dense numpy sweep"),
     "C03": dict(
